@@ -703,6 +703,16 @@ def structtag_layouts():
         vals = [{"d": d, "flag": f, "other": o} for d in (0, -1, 0x01020304, -(1 << 31)) for f in (False, True) for o in (False, True)]
         return lib, desc, vals
     out.append(("trailing-pad", L4))
+
+    def L5():  # BOOL members hosted in a VISIBLE member (MESSAGE.Flags style): the BOOL value decides its host bit
+        I, idd = atom("INT"); D, dd = atom("DINT")
+        members = [("flags", I, idd, 0), ("d", D, dd, 4)]
+        bits = [("ew", 0, 1), ("er", 0, 2), ("dn", 0, 7), ("to", 1, 0)]
+        lib, desc = build(8, members, bits, [])
+        vals = [{"flags": f, "d": 0x01020304, "ew": bool(m & 1), "er": bool(m & 2), "dn": bool(m & 4), "to": bool(m & 8)}
+                for f in (0, -1, 0x0186, 0x0100, 0x0002, 0x7E79) for m in range(16)]
+        return lib, desc, vals
+    out.append(("bools-over-visible-host", L5))
     return out
 
 
